@@ -22,7 +22,8 @@ def p_case(rng):
     if rng.random() < 0.4:
         for term in trees.unordered_terminals(t):
             if rng.random() < 0.2:
-                term.data['label'] = "PRELS"
+                # the designated tag and its near misses (longer, shorter, other case, decorated)
+                term.data['label'] = rng.choice(["PRELS", "PRELS", "PRELS", "PRELSAT", "PRELS-SB", "PRELS$", "PREL", "prels"])
     tag_uids(t)
     prefix = [("root_attach", {})] if rng.random() < 0.5 else []
     if rng.random() < 0.15:
@@ -35,7 +36,7 @@ def p_case(rng):
     tag_uids(base)          # nodes created by the prefix get identities too
     a = proto.enc_tree(base)
     name = rng.choice(["punctuation_verylow", "punctuation_root", "punctuation_symetrify"])
-    params = {"relc": "PRELS"} if name == "punctuation_symetrify" and rng.random() < 0.4 else {}
+    params = {"relc": rng.choice(["PRELS", "PRELS", "PREL", "PRELS$"])} if name == "punctuation_symetrify" and rng.random() < 0.4 else {}
     before = {n.data['uid']: (n.parent.data['uid'] if n.parent else None) for n in trees.preorder(base)}
     res, _, out = tx.run_impl([(name, params)], base)
     cs = tx.call_str(name, params)
